@@ -401,9 +401,9 @@ def ml_case(case, env):
 def check(tier, seed, t0):
     common.build_harness()
     common.build_rg()
-    total = 150 if tier == "quick" else 9000
-    parts = [("text+json", common.run_cli_cases("c09", cli_case, seed, "c09", total, 10 if tier == "quick" else 100)),
-             ("multiline", common.run_cli_cases("c13", ml_case, seed, "c09u", total // 2, 10 if tier == "quick" else 100))]
+    total = 1000 if tier == "quick" else 40000
+    parts = [("text+json", common.run_cli_cases("c09", cli_case, seed, "c09", total, 63 if tier == "quick" else 200)),
+             ("multiline", common.run_cli_cases("c13", ml_case, seed, "c09u", total // 2, 32 if tier == "quick" else 200))]
     rep = common.merge_reports(parts)
     return common.finalize("C09", tier, seed, "exploration", RULE, rep, t0, ASSUME, floor_eval=300, floor_distinct=100)
 
